@@ -10,6 +10,8 @@ Extracted structurally (becomes the Coq record `gen : cfg` of Model/Handles.v, t
     Handle.is_valid.is_(True)                                                          -> rb_valid_only
   * Scheduler._get_cache: the decision chain on (cache_type, result): the CSE branch with or without
     `self._has_valid_handles(result)`                                                  -> cse_checks_valid
+  * Scheduler._perform_rollbacks: every Handle among the arguments is rolled back, or only the first of
+    each fullname (a `seen_names` set)                                                 -> rb_first_per_name
   * Scheduler._exec_job_main_thread / _done_job_main_thread: order facts (preprocess before the cache
     look-up, rollbacks after it and not in dry runs, postprocess only for uncached results).
 Hand-modelled and pinned by shape (translate/pins_C25.json; compared with the real code by the
@@ -237,8 +239,29 @@ def translate(pins=None, write_pins=False):
         fail("_get_cache uses _has_valid_handles but Scheduler does not define it")
     if has_hv:
         check_pin("Scheduler._has_valid_handles", find_func(sm, "_has_valid_handles", cls="Scheduler"))
-    for name in ("_perform_rollbacks", "_preprocess_args", "_postprocess_result", "_is_valid_value"):
+    for name in ("_preprocess_args", "_postprocess_result", "_is_valid_value"):
         check_pin("Scheduler." + name, find_func(sm, name, cls="Scheduler"))
+    # _perform_rollbacks: which of the Handle states among a job's arguments are rolled back
+    pr = find_func(sm, "_perform_rollbacks", cls="Scheduler")
+    if [a.arg for a in pr.args.args] != ["self", "args", "kwargs"]:
+        fail("_perform_rollbacks: signature changed", pr)
+    pb = body_nodoc(pr)
+    seen_decl = [x for x in pb if isinstance(x, (ast.Assign, ast.AnnAssign))]
+    loops = [x for x in pb if isinstance(x, ast.For)]
+    if len(loops) != 1 or len(seen_decl) + 1 != len(pb) or src(loops[0].target) != "value" or loops[0].orelse \
+            or src(loops[0].iter) != "iter_nested_value((args, kwargs))" or len(loops[0].body) != 1 \
+            or not isinstance(loops[0].body[0], ast.If) or loops[0].body[0].orelse:
+        fail("_perform_rollbacks: expected `for value in iter_nested_value((args, kwargs)): if ...:`", pr)
+    cond = src(loops[0].body[0].test)
+    acts = [src(x) for x in loops[0].body[0].body]
+    if cond == "isinstance(value, Handle)" and acts == ["self.backend.rollback_handle(value)"] and not seen_decl:
+        first_per_name = False
+    elif (cond == "isinstance(value, Handle) and value.__handle__.fullname not in seen_names"
+          and acts == ["seen_names.add(value.__handle__.fullname)", "self.backend.rollback_handle(value)"]
+          and [src(x).replace(": set[str]", "") for x in seen_decl] == ["seen_names = set()"] and pb[0] is seen_decl[0]):
+        first_per_name = True
+    else:
+        fail(f"_perform_rollbacks: unrecognised selection of the handles to roll back: if {cond}: {acts}", pr)
     check_pin("scheduler.merge_handles", find_func(sm, "merge_handles"))
 
     # order facts in _exec_job_main_thread / _done_job_main_thread
@@ -298,7 +321,7 @@ def translate(pins=None, write_pins=False):
 
     cfg = {"default_valid": default_valid, "adv_chain_upd": chain_upd, "adv_child_upd": child_upd,
            "adv_parent_upd": parent_upd, "rb_same_name": flags["same_name"], "rb_valid_only": flags["valid_only"],
-           "cse_checks_valid": cse_checks}
+           "cse_checks_valid": cse_checks, "rb_first_per_name": first_per_name}
 
     def b(x):
         return "true" if x else "false"
@@ -307,7 +330,7 @@ def translate(pins=None, write_pins=False):
          "From RV Require Import Model.Handles.",
          "Definition gen : cfg := mkCfg " + " ".join(b(cfg[k]) for k in
                                                       ("default_valid", "adv_chain_upd", "adv_child_upd", "adv_parent_upd",
-                                                       "rb_same_name", "rb_valid_only", "cse_checks_valid")) + ".",
+                                                       "rb_same_name", "rb_valid_only", "cse_checks_valid", "rb_first_per_name")) + ".",
          "(* The theorems of Props/C25.v are about [std_cfg valid_only cse_checks]; this is the tie. *)",
          "Lemma C25_tie : exists valid_only cse_checks, gen = std_cfg valid_only cse_checks.",
          "Proof. exists (rb_valid_only gen), (cse_checks_valid gen). reflexivity. Qed.",
